@@ -99,6 +99,8 @@ struct Scenario {
     cmd_flags: Vec<String>,
     cmd_opts: Vec<(String, String)>,
     no_gitconfig: bool,
+    /// booleans in the git config file are written in git's other spellings (yes/on/1/True, no/off/0/False)
+    alt_bool_spellings: bool,
 }
 
 fn gen_section(t: &mut Tape, src: usize, feature_pool: &[String], allow_features_key: bool) -> SectionSpec {
@@ -194,6 +196,7 @@ fn gen_scenario(t: &mut Tape) -> Scenario {
         sc.cmd_opts.push((o.to_string(), value_for(ty, o, 0, t)));
     }
     sc.no_gitconfig = t.chance(1, 10);
+    sc.alt_bool_spellings = t.chance(1, 3);
     sc
 }
 
@@ -205,11 +208,24 @@ fn render_gitconfig(sc: &Scenario) -> String {
         if let Some(f) = &s.features {
             g.push_str(&format!("    features = {}\n", f.join(" ")));
         }
+        // git's value grammar for booleans: true/yes/on/1 and false/no/off/0, in any case
+        let spell = |k: &str, v: &str| -> String {
+            // (`inspect-raw-lines` is a string-valued option whose values happen to be "true"/"false")
+            if !sc.alt_bool_spellings || k == "inspect-raw-lines" {
+                return v.to_string();
+            }
+            let h = (fnv(k.as_bytes()) ^ fnv(header.as_bytes())) as usize;
+            match v {
+                "true" => ["true", "yes", "on", "1", "True", "YES"][h % 6].to_string(),
+                "false" => ["false", "no", "off", "0", "False", "OFF"][h % 6].to_string(),
+                _ => v.to_string(),
+            }
+        };
         for f in &s.flags {
-            g.push_str(&format!("    {} = true\n", f));
+            g.push_str(&format!("    {} = {}\n", f, spell(f, "true")));
         }
         for (k, v) in &s.opts {
-            g.push_str(&format!("    {} = {}\n", k, v));
+            g.push_str(&format!("    {} = {}\n", k, spell(k, v)));
         }
     };
     sect(&mut g, "[delta]", &sc.main);
